@@ -214,7 +214,8 @@ func (c *conn) send(ctx context.Context, msg *kmip.RequestMessage) error {
 		return err
 	}
 	tx := c.tx.Load().(chan txMsg)
-	errCh := make(chan error)
+	// Buffered: the write loop reports its result even when nobody waits for it anymore
+	errCh := make(chan error, 1)
 	select {
 	case tx <- txMsg{msg: msg, err: errCh}:
 		select {
